@@ -8,6 +8,7 @@
 
 #include "cntgs/detail/typeTraits.hpp"
 
+#include <deque>
 #include <iterator>
 #include <version>
 
@@ -41,13 +42,31 @@ constexpr auto operator_arrow_produces_pointer_to_iterator_reference_type() noex
     }
 }
 
+#ifdef __cpp_lib_concepts
+template <class I>
+inline constexpr bool CONTIGUOUS_ITERATOR_V = std::contiguous_iterator<I>;
+#else
+// Random access, an lvalue reference and operator-> do not make an iterator contiguous: the iterators of std::deque
+// and std::reverse_iterator have all three. Without std::contiguous_iterator they have to be excluded by name.
+template <class I>
+inline constexpr bool IS_REVERSE_ITERATOR = false;
+
+template <class I>
+inline constexpr bool IS_REVERSE_ITERATOR<std::reverse_iterator<I>> = true;
+
+template <class I, class V = typename std::iterator_traits<I>::value_type>
+inline constexpr bool IS_DEQUE_ITERATOR =
+    std::is_same_v<I, typename std::deque<V>::iterator> || std::is_same_v<I, typename std::deque<V>::const_iterator>;
+
 template <class I>
 inline constexpr bool CONTIGUOUS_ITERATOR_V =
     detail::IS_DERIVED_FROM<typename std::iterator_traits<I>::iterator_category, std::random_access_iterator_tag> &&
     std::is_lvalue_reference_v<typename std::iterator_traits<I>::reference> &&
     std::is_same_v<typename std::iterator_traits<I>::value_type,
                    detail::RemoveCvrefT<typename std::iterator_traits<I>::reference>> &&
-    detail::operator_arrow_produces_pointer_to_iterator_reference_type<I>();
+    detail::operator_arrow_produces_pointer_to_iterator_reference_type<I>() && !detail::IS_REVERSE_ITERATOR<I> &&
+    !detail::IS_DEQUE_ITERATOR<I>;
+#endif
 }  // namespace cntgs::detail
 
 #endif  // CNTGS_DETAIL_ITERATOR_HPP
